@@ -166,6 +166,8 @@ def run(spec, keep_tmp=False, sample=None):
             data = payload(ts['size'], i)
             subs = [env.sub(name=f's{i}.{j}', **sd) for j, sd in enumerate(ts.get('subs', [{}]))]
             run_.sub_names[label] = [x.name for x in subs]
+            run_.sub_has = getattr(run_, 'sub_has', {})
+            run_.sub_has[label] = {x.name: set(sd['only']) for x, sd in zip(subs, ts.get('subs', [{}])) if sd.get('only') is not None}
             run_.raising_queued[label] = {x.name for x in subs if 'queued' in x.raise_in}
             run_.provided_size[label] = any(sd.get('provide_size') is not None for sd in ts.get('subs', [{}]))
             run_.spec_preexisting[label] = bool(ts.get('preexisting'))
